@@ -84,6 +84,7 @@ CLAIMED["C09"] = dict(
     category="translation_validation",
     technique="per-program translation validation with two Coq semantics (Sem/Src.v on the real typed source tree, Sem/GoSem.v on the real emitted Go AST) evaluated in coqc; both semantics validated against outputs recorded from real Go; plus a Coq model of anf.rs (continuation-passing, explicit gensym counter) with the theorem that A-normalisation keeps every operation exactly once, in left-to-right order, inside the same branch, the model being compared node for node with the real A-normal form of every function",
     text="Programs with printing probes around operands, arguments, conditions and branches, a systematic matrix of unit-typed effect expressions x statement positions, Ref updates and failing operations are compiled; order and multiplicity of effects and the failure point of the real Go AST (after ANF, Go generation, DCE) must equal the typed source program's under the Coq semantics. "
+         "anf_preserves_meaning (no axioms): for EVERY interpretation of literals and operations (calls, arithmetic, construction, trait-object calls, spawning: anything with evaluated operands, free to print, update the heap or fail), of conditions and of arm selection, if the lifted body evaluates to a value or a run-time failure then the model's A-normal form evaluates to the same value in the same world or fails in the same world (registers agree except for the temporaries), under a decidable well-formedness condition that is checked on every real function body; proved through anf_is_wrap_of_flat (the continuation-passing model equals a first-order description). "
          "anf_keeps_every_operation_once_in_order / anf_in_context_keeps_order (no axioms): for every lifted body, counter value and continuation that performs the received operation first, the operation trace of the model's A-normal form is the left-to-right operands-first trace of the source, with if/while/match branches kept apart. The model (C09/Anf.v) must equal the real A-normal form (names of temporaries included) for every function of every generated and corpus program. "
          "Go generation and DCE are covered by translation validation only; && / || evaluation of both operands is a known finding (short_circuit_refuted).",
     design_ref="DESIGN.md §4 C09",
